@@ -11,7 +11,7 @@ import common, gen_pip
 HERE = os.path.dirname(os.path.abspath(__file__))
 COQ_FILES = ["PIP/PipSpec.v", "PIP/PipTree.v", "PIP/PipRef.v", "PIP/PipCuts.v"]
 FUEL = 64
-MAX_DEATHS = 10          # timeouts/crashes per batch after which the rest of the batch is not run
+MAX_DEATHS = 12          # timeouts per batch after which the rest of the batch is not run
 MAX_VIOLATIONS = 6       # enough to show the property is broken; the run stops attributing after that
 BIGVALS = [1000003, 1000004, 1000005, 1000006, 1000007, 1000000007]
 SITE_ROW_SIGN = "PIP_Solution_Node::row_sign/solve (PIP_Tree.cc)"
@@ -103,7 +103,7 @@ def run_harness(exe, cases, tmo):
             break          # the library is evidently broken: the cases not run are reported as skipped
         text = "".join(gen_pip.render(cid, ops) for cid, ops in todo)
         p = subprocess.run([exe, str(tmo)], input=text, stdout=subprocess.PIPE, stderr=subprocess.STDOUT, text=True,
-                           timeout=tmo * len(todo) + 120)
+                           timeout=20 * tmo * len(todo) + 600)   # wall-clock backstop only; the per-case limit is CPU time
         begun = None; finished = set()
         for line in p.stdout.splitlines():
             t = line.split()
@@ -133,7 +133,8 @@ def run_harness(exe, cases, tmo):
             res[begun].append({"status": "CRASH", "rc": p.returncode, "tail": p.stdout[-300:]})
         i = ids.index(begun)
         todo = todo[i + 1:]
-        deaths += 1
+        if res[begun] and res[begun][-1]["status"] == "TIMEOUT":
+            deaths += 1        # only timeouts are expensive; a crash costs nothing
     return res
 
 
@@ -452,7 +453,8 @@ def run(chk):
     batch = 500 if chk.quick else 1000
     budget_s = 150 if chk.quick else 1500
     done = 0; b = 0
-    while done < total and time.time() - chk.t0 < budget_s and len(chk.violations) < MAX_VIOLATIONS:
+    t_gen = time.time()      # the budget covers generation and judging, not the wait for the shared Coq lock
+    while done < total and time.time() - t_gen < budget_s and len(chk.violations) < MAX_VIOLATIONS:
         rng = random.Random(chk.seed * 1000003 + b)
         cases = []
         for i in range(min(batch, total - done)):
